@@ -254,6 +254,16 @@ func Strip(v ssa.Value) ssa.Value {
 						continue
 					}
 				}
+				// a field of a context struct (parameter object of an extracted helper) that every caller fills with
+				// one and the same value: the load stands for that value of the caller
+				if fa, ok := x.X.(*ssa.FieldAddr); ok {
+					if _, isPar := fa.X.(*ssa.Parameter); isPar {
+						if vals, ok := CtxFieldValues(fa); ok && len(vals) == 1 && !writtenInCallee(fa) {
+							v = vals[0]
+							continue
+						}
+					}
+				}
 			}
 			return v
 		default:
@@ -882,4 +892,25 @@ func ReturnedFieldValues(v ssa.Value) (vals []ssa.Value, ok bool) {
 		}
 	}
 	return vals, found
+}
+
+// writtenInCallee: some function that receives the context struct stores into the field itself (then the caller's
+// value is not the only one the load can see).
+func writtenInCallee(fa *ssa.FieldAddr) bool {
+	par, ok := fa.X.(*ssa.Parameter)
+	if !ok || par.Parent() == nil {
+		return true
+	}
+	for _, b := range par.Parent().Blocks {
+		for _, in := range b.Instrs {
+			st, ok := in.(*ssa.Store)
+			if !ok {
+				continue
+			}
+			if f2, ok := st.Addr.(*ssa.FieldAddr); ok && f2.Field == fa.Field && f2.X == fa.X {
+				return true
+			}
+		}
+	}
+	return false
 }
